@@ -23,7 +23,9 @@ mut('C18-fetcher-first-end-marker', (P + 'parallelize.py', "            if expec
 mut('C18-one-end-marker-too-few', (P + 'parallelize.py', "        for _ in range(num_processors):\n            q_in.put(None)\n", "        for _ in range(num_processors - 1):\n            q_in.put(None)\n"))
 mut('C18-put-before-apply', (P + 'parallelize.py', "            try:\n                row_func(row)\n            except Exception as e:\n                print(pid, 'FAILED TO RUN row_func {}\\n'.format(e))\n                pass\n            q_out.put(row)\n",
      "            q_out.put(row)\n            try:\n                row_func(row)\n            except Exception as e:\n                print(pid, 'FAILED TO RUN row_func {}\\n'.format(e))\n                pass\n"))
-mut('C18-bypass-direct-yield', (P + 'parallelize.py', "            else:\n                q_internal.put(row)\n        for _ in range(num_processors):", "            else:\n                q_in.put(row)\n        for _ in range(num_processors):"))
+mut('C18-bypass-direct-yield', (P + 'parallelize.py', "            else:\n                q_internal.put(row)\n    except Exception as e:", "            else:\n                q_in.put(row)\n    except Exception as e:"))
+mut('C18-fetcher-stops-on-empty-poll', (P + 'parallelize.py', "        row = q_out.get()\n        if row is None:\n            expected_nones -= 1",
+     "        try:\n            row = q_out.get(timeout=2)\n        except queue.Empty:\n            q_internal.put(None)\n            break\n        if row is None:\n            expected_nones -= 1"))
 # ---- C08
 mut('C08-no-active-suffix', (P + 'stream.py', "ACTIVE_SUFFIX = '.active'", "ACTIVE_SUFFIX = ''"),
     (P + 'stream.py', "        if filename:\n            os.rename(filename, filename[:-len(ACTIVE_SUFFIX)])\n", "        if filename and ACTIVE_SUFFIX:\n            os.rename(filename, filename[:-len(ACTIVE_SUFFIX)])\n"))
@@ -32,6 +34,63 @@ mut('C08-rename-after-first-resource', (P + 'stream.py', "            yield res_
 mut('C08-exists-checks-active-too', (P + 'checkpoint.py', "        if os.path.exists(self.filename):\n            print('using", "        if os.path.exists(self.filename) or os.path.exists(self.filename + '.active'):\n            if not os.path.exists(self.filename):\n                os.rename(self.filename + '.active', self.filename)\n            print('using"))
 # ---- C19
 mut('C19-descriptor-first', (P + 'dumpers/dumper_base.py', "        self.initialize()\n\n        resource: ResourceWrapper = None\n", "        self.initialize()\n        self.handle_datapackage()\n\n        resource: ResourceWrapper = None\n"))
+
+# ---- C01
+B = 'dataflows/base/'
+H = 'dataflows/helpers/'
+mut('C01-row-processor-shared-dict', (H + 'row_processor.py', "        ret = self.func(row)\n        if ret is None:\n            return row\n        return ret\n",
+     "        ret = self.func(row)\n        if ret is None:\n            return row\n        self._last = getattr(self, '_last', None) or {}\n        self._last.clear()\n        self._last.update(ret)\n        return self._last\n"))
+mut('C01-no-deepcopy-of-upstream-descriptor', (B + 'datastream_processor.py', "Package(descriptor=copy.deepcopy(datastream.dp.descriptor))", "Package(descriptor=datastream.dp.descriptor)"))
+mut('C01-conditional-reprocesses-source', (P + 'conditional.py', "            return flow.datastream(ds)\n", "            return flow.datastream(self.source)\n"))
+# ---- C03
+F = P + 'dumpers/formats/'
+mut('C03-bool-lowercase', (F + 'base.py', "        return field.descriptor['serializer'](value)\n", "        if value is True or value is False:\n            return str(value).lower() if self.NULL_VALUE == '' else value\n        return field.descriptor['serializer'](value)\n"))
+mut('C03-date-format-mismatch', (F + 'format_csv.py', "        'date': lambda d: d.strftime(DATE_F_FORMAT),\n", "        'date': lambda d: d.strftime('%d/%m/%Y'),\n"))
+mut('C03-number-as-float-in-csv', (F + 'format_csv.py', "        'year': lambda d: '{:04d}'.format(d),\n", "        'year': lambda d: '{:04d}'.format(d),\n        'number': lambda d: repr(float(d)),\n"))
+# ---- C04
+mut('C04-dumper-swallows-row-errors', (P + 'dumpers/file_dumper.py', "        for row in resource:\n            writer.write_row(row)\n            yield row\n        writer.finalize_file()\n",
+     "        try:\n            for row in resource:\n                writer.write_row(row)\n                yield row\n        except Exception:\n            logging.exception('failed processing resource')\n        writer.finalize_file()\n"),
+    (P + 'dumpers/file_dumper.py', "import os\nimport json\n", "import os\nimport json\nimport logging\n"))
+mut('C04-descriptor-in-finally', (P + 'dumpers/dumper_base.py', "        resource: ResourceWrapper = None\n        for resource in resources:\n            ret = self.process_resource(\n                        ResourceWrapper(\n                            resource.res,\n                            schema_validator(resource.res, resource,\n                                             **self.schema_validator_options)\n                        )\n            )\n            ret = self.row_counter(resource, ret)\n            yield ret\n",
+     "        resource: ResourceWrapper = None\n        try:\n            for resource in resources:\n                ret = self.process_resource(\n                            ResourceWrapper(\n                                resource.res,\n                                schema_validator(resource.res, resource,\n                                                 **self.schema_validator_options)\n                            )\n                )\n                ret = self.row_counter(resource, ret)\n                yield ret\n        except Exception:\n            self.handle_datapackage()\n            raise\n"))
+mut('C04-unique-key-error-swallowed', (B + 'datastream_processor.py', "        except UniqueKeyError as e:\n            self.raise_exception(e)\n", "        except UniqueKeyError as e:\n            logging.error('%s', e)\n"))
+# ---- C05
+mut('C05-delete-resource-no-drain', (P + 'delete_resource.py', "            else:\n                collections.deque(r, maxlen=0)\n", "            else:\n                pass\n"))
+mut('C05-finalizer-early', (P + 'finalizer.py', "            yield from base_func()\n            if 'stats' in signature(self.callback).parameters:", "            it = base_func()\n            first = next(it, None)\n            if first is not None:\n                yield first\n            pending = list(it)\n            if 'stats' in signature(self.callback).parameters:"),
+    (P + 'finalizer.py', "            else:\n                self.callback()\n", "            else:\n                self.callback()\n            yield from pending\n"))
+mut('C05-printer-stops-after-sample', (P + 'printer.py', "        for i, row in enumerate(rows):\n\n            index = i + 1\n", "        for i, row in enumerate(rows):\n\n            index = i + 1\n            if index > 3 * num_rows + 50:\n                yield row\n                continue\n"))
+# ---- C06
+mut('C06-filter-materialises', (P + 'filter_rows.py', "def process_resource(rows, condition):\n    for row in rows:", "def process_resource(rows, condition):\n    rows = list(rows)\n    for row in rows:"))
+mut('C06-describe-reads-all', (H + 'iterable_loader.py', "                sample = list(itertools.islice(self.iterable, self.SAMPLE_SIZE))\n", "                sample = list(self.iterable)\n"))
+# ---- C07
+mut('C07-datetime-tz-dropped', (H + 'extended_json.py', "                if tzname is not None:\n", "                if tzname is not None and tzofs == 0:\n"))
+mut('C07-upstream-runs-despite-checkpoint', (P + 'checkpoint.py', "            print('using checkpoint data from {}'.format(self.checkpoint_path))\n            return unstream(self.filename),\n",
+     "            print('using checkpoint data from {}'.format(self.checkpoint_path))\n            import collections\n            collections.deque((collections.deque(r, maxlen=0) for r in Flow(*self.chain).datastream().res_iter), maxlen=0)\n            return unstream(self.filename),\n"))
+mut('C07-empty-resource-separator-skipped', (P + 'stream.py', "        for res in package:\n            yield res_writer(res)\n            file.write('\\n')\n", "        for res in package:\n            state = {'n': 0}\n            yield res_writer(res, state)\n            if state['n']:\n                file.write('\\n')\n"),
+    (P + 'stream.py', "    def res_writer(res):\n        for r in res:\n            write(r)\n            yield r\n", "    def res_writer(res, state=None):\n        for r in res:\n            write(r)\n            if state is not None:\n                state['n'] += 1\n            yield r\n"))
+# ---- C09
+mut('C09-hash-before-finalize', (P + 'dumpers/file_dumper.py', "        writer.finalize_file()\n\n        # Get resource descriptor", "        prehash = FileDumper.hash_handler(temp_file).hexdigest() if self.resource_hash else None\n        temp_file.seek(0, 2)\n        writer.finalize_file()\n\n        # Get resource descriptor"),
+    (P + 'dumpers/file_dumper.py', "            DumperBase.set_attr(resource_descriptor, self.resource_hash, hasher.hexdigest())\n", "            DumperBase.set_attr(resource_descriptor, self.resource_hash, prehash)\n"))
+mut('C09-bytes-as-chars', (P + 'dumpers/file_dumper.py', "        # File size:\n        filesize = temp_file.tell()\n", "        # File size:\n        temp_file.flush()\n        temp_file.seek(0)\n        filesize = len(temp_file.read())\n        temp_file.seek(0, 2)\n"))
+# ---- C11
+mut('C11-first-as-last', (P + 'join.py', "    'first': Aggregator(lambda curr, new:\n                        curr if curr is not None else new,", "    'first': Aggregator(lambda curr, new:\n                        new,"))
+mut('C11-missing-key-matches-empty', (P + 'join.py', "                try:\n                    extra = create_extra_by_key(key)\n                    db_keys_usage.set(key, True)\n                except KeyError:\n",
+     "                try:\n                    try:\n                        extra = create_extra_by_key(key)\n                    except KeyError:\n                        key = 'None'\n                        extra = create_extra_by_key(key)\n                    db_keys_usage.set(key, True)\n                except KeyError:\n"))
+mut('C11-full-outer-emits-used-keys', (P + 'join.py', "                    if value is False:\n                        extra = create_extra_by_key(key)\n", "                    if value is False or key.endswith('1'):\n                        extra = create_extra_by_key(key)\n"))
+# ---- C12
+mut('C12-no-sign-inversion', (P + 'sort_rows.py', "                        if value < 0:\n                            bits.invert(range(1, 64))\n", "                        if value < -1:\n                            bits.invert(range(1, 64))\n"))
+mut('C12-no-rownum-suffix', (P + 'sort_rows.py', "            key = key_calc(row) + '\\x00{:08x}'.format(row_num)\n", "            key = key_calc(row) + '\\x00{:02x}'.format(row_num % 7)\n"))
+# ---- C14
+mut('C14-clear-nulls-all-checked', (B + 'schema_validator.py', "    if field is not None:\n        row[field.name] = None\n        return True\n", "    if field is not None:\n        row[field.name] = None\n        if e is not None and len(getattr(e, 'errors', [])) > 1:\n            for k in list(row):\n                row[k] = None\n        return True\n"))
+mut('C14-index-off-by-one', (B + 'schema_validator.py', "    for i, row in enumerate(iterator):\n        field = None\n", "    for i, row in enumerate(iterator, start=1):\n        field = None\n"))
+mut('C14-drop-also-drops-next', (B + 'schema_validator.py', "        if okay:\n            yield row\n", "        if okay and not getattr(schema_validator, '_skip', False):\n            yield row\n        schema_validator._skip = (not okay) and i % 5 == 4\n"))
+# ---- C16
+mut('C16-concat-one-too-many', (P + 'concatenate.py', "                                                     num_concatenated-1))\n", "                                                     num_concatenated))\n"))
+mut('C16-duplicate-copy-before-original-drained', (P + 'duplicate.py', "    db.insert(batch, batch_size=batch_size)\n\n\ndef loader", "    db.insert(batch[:-1] if len(batch) > 3 else batch, batch_size=batch_size)\n\n\ndef loader"))
+# ---- C20
+mut('C20-append-as-rewrite', (P + 'dumpers/to_sql.py', "            if mode == 'rewrite' and '' in storage.buckets:\n", "            if mode in ('rewrite', 'append') and '' in storage.buckets and self.batch_size == 2:\n"))
+mut('C20-updated-flag-always-false', (P + 'dumpers/to_sql.py', "            row[self.updated_column] = updated\n", "            row[self.updated_column] = bool(updated) and self.use_bloom_filter\n"))
+mut('C20-update-keys-first-field-only', (P + 'dumpers/to_sql.py', "                if update_keys is None:\n                    update_keys = schema_descriptor.get('primaryKey', [])\n", "                if update_keys is None:\n                    update_keys = schema_descriptor.get('primaryKey', [])\n                update_keys = update_keys[:1]\n"))
 
 
 def main():
